@@ -137,11 +137,15 @@ pub fn alphabet(g: &Geo, with_reopen: bool) -> Vec<Op> {
         w(tb - cs, 2 * cs, &mut ops); // spanning two L2 tables
     }
     w(0, 3 * cs, &mut ops); // multi-cluster batch
+    if cs >= 4 * bs {
+        w(5 * cs + bs, bs, &mut ops); // inside a fresh cluster, touching neither its start nor its end
+    }
     w(v - bs, bs, &mut ops); // last block
     if v > 2 * tb {
         w(2 * tb + cs, bs, &mut ops); // one block in the third table
     }
     ops.push(Op::Read { off: 0, len: bs as usize });
+    ops.push(Op::Read { off: 2 * cs, len: cs as usize }); // the whole third cluster
     if v > tb {
         ops.push(Op::Read { off: tb - cs, len: 2 * cs as usize });
     }
@@ -242,6 +246,30 @@ pub fn initial_images(g: &Geo, which: &[&str]) -> Vec<ImageSet> {
                 s.refcount_last = false;
                 s.ragged_end = true;
                 out.push(from_specs(&format!("{}-compressed-ragged", g.name), "compressed", vec![s]));
+            }
+            "data-ragged" => {
+                // the host file ends inside its last data cluster, at a multiple of 512 that is no
+                // multiple of bigger block sizes (an image written with 512-byte blocks and only
+                // partly filled last cluster); what the file doesn't hold reads as zeros
+                let mut s = base(0xB00000);
+                s.kinds = vec![GKind::Unalloc; ncl];
+                s.kinds[0] = GKind::Data;
+                s.kinds[1] = GKind::Data;
+                s.kinds[2] = GKind::Data;
+                s.refcount_last = false;
+                let mut img = from_specs(&format!("{}-data-ragged", g.name), "data", vec![s]);
+                let bpc = (g.cs() as usize) / 512;
+                if bpc >= 8 {
+                    let keep = 3usize; // blocks of guest cluster 2 that stay
+                    let host = img.built[0].truth[2].host_off as usize;
+                    if host + g.cs() as usize == img.files[0].len() {
+                        img.files[0].truncate(host + keep * 512);
+                        for b in keep..bpc {
+                            img.rd.blocks[2 * bpc + b] = 0;
+                        }
+                        out.push(img);
+                    }
+                }
             }
             "compressed-boundary" => {
                 let mut s = base(0xB00000);
@@ -428,6 +456,8 @@ pub fn discard_alphabet_small(g: &Geo) -> Vec<Op> {
         Op::Write { off: cs, len: bs as usize, tag: 2 },
         Op::Write { off: far * cs, len: cs as usize, tag: 3 },
         Op::Write { off: (far + 1) * cs, len: bs as usize, tag: 4 },
+        // inside a fresh cluster, touching neither its start nor its end
+        Op::Write { off: 6 * cs + bs, len: bs as usize, tag: 5 },
         Op::Flush,
         Op::Reopen,
     ]
